@@ -341,6 +341,16 @@ where
         let complex = self.make_complex();
         let derivative = complex.derivative();
 
+        // Cauchy's bound on the root moduli, and their geometric mean
+        let degree = N::RealField::from_usize(self.coefficients.len() - 1).unwrap();
+        let leading = complex.coefficients.last().unwrap().abs();
+        let root_bound = complex
+            .coefficients
+            .iter()
+            .fold(N::RealField::zero(), |acc, c| acc.max(c.abs() / leading))
+            + N::RealField::one();
+        let root_mean = (complex.coefficients[0].abs() / leading).powf(degree.recip());
+
         let mut guess = Complex::<N::RealField>::zero();
         let mut k = 0;
         'out: while k < n_max {
@@ -362,6 +372,15 @@ where
                 order / plus
             } else {
                 order / minus
+            };
+            // Where the first and second derivative (nearly) vanish, e.g. x^n - c at 0, Laguerre's
+            // step is undefined or leaves the disc that holds every root: restart instead from
+            // a point whose modulus is the geometric mean of the root moduli
+            let a = if a.is_finite() && (guess - a).abs() <= root_bound {
+                a
+            } else {
+                let angle = N::RealField::from_usize(k + 1).unwrap();
+                guess - Complex::<N::RealField>::new(root_mean * angle.cos(), root_mean * angle.sin())
             };
             guess -= a;
             k += 1;
